@@ -74,7 +74,8 @@ PROPS["C03"] = {
               H("ZZ_C03_Range", reach=["range-done"]),
               H("ZZ_C03_Reset", reach=["read-done"]),
               H("ZZ_C03_Loading", reach=["read-done"]),
-              H("ZZ_C14_HybridLoadingExpiry", reach=["read"], bounds="hybrid loading cache: a value promoted from the secondary tier keeps its deadline")],
+              H("ZZ_C14_HybridLoadingExpiry", reach=["read"], bounds="hybrid loading cache: a value promoted from the secondary tier keeps its deadline"),
+              H("ZZ_C15_ReloadAfterSecondaryExpiry", reach=["reloaded"], bounds="hybrid loading Get: an expired copy in the secondary tier is not served")],
     "thorough": [H("ZZ_C14_HybridLoadingExpiry", reach=["read"]), H("ZZ_C03_Get", reach=["read-done", "hit"]), H("ZZ_C03_Range", reach=["range-done"]), H("ZZ_C03_Reset", reach=["read-done"]), H("ZZ_C03_Loading", reach=["read-done"]),
                  H("ZZ_C03_Get", reach=["read-done", "hit"], solver="cvc5", bounds="cross-check with cvc5"), H("ZZ_C03_Reset", reach=["read-done"], solver="cvc5", bounds="cross-check with cvc5"),
                  H("ZZ_C03_Loading", reach=["read-done"], solver="cvc5", bounds="cross-check with cvc5")],
@@ -381,7 +382,7 @@ PROPS["C14"] = {
     "title": "hybrid cache never serves stale, deleted or expired values",
     "technique": "SSA symbolic execution with controlled threads of the real hybrid entry points (GetWithSecodary, Set, DeleteWithSecondary) with the real processSecondary worker and a nondeterministic secondary store; sequential histories against a model, Delete-vs-demotion race, symbolic read time",
     "level_text": "Bounded model checking: (a) every history of N calls (Set k1 with/without TTL, Set k2 on a one-slot memory tier so that demotion and promotion happen, hybrid Get, hybrid Delete, clock advance) with workers keeping up, checked against a model: a hit from either tier carries the last completed Set's value, never after a completed Delete or past the deadline; (b) Delete racing the demotion of the same entry in all schedules within the preemption bound; (c) promote-update-evict-read; (d) expired entry in the secondary tier with symbolic read time.",
-    "level_note": _thr_note + "Secondary store = harness map with a yield in every method (slow store); admission probability 1, 0 and symbolic; one worker (thorough: two); a full hand-off queue is modelled by letting the select in removeEntry take its default branch nondeterministically. Known finding: an overwrite of a promoted entry racing the eviction of that entry (ZZ_C14_UpdateVsEvict).",
+    "level_note": _thr_note + "Secondary store = harness map with a yield in every method (slow store); admission probability 1, 0 and symbolic; one worker (thorough: two); a full hand-off queue is modelled by letting the select in removeEntry take its default branch nondeterministically.",
     "assumptions": ["workers keep up between the calls of the sequential histories (the race program does not assume it)"],
     "outside_bound": ["more than two workers", "histories longer than N (quick 4, thorough 5)"],
     "quick": [H("ZZ_C14_Seq", params={"N": 4}, reach=["sequence-done", "hit", "promoted-from-secondary"], bounds="N=4 calls, memory capacity 1"),
@@ -394,10 +395,13 @@ PROPS["C14"] = {
               H("ZZ_C14_StaleAfterLostDemotion", params={"FULL": 1}, reach=["evicted-again"], bounds="newer value evicted with the hand-off queue possibly full"),
               H("ZZ_C14_StaleAfterLostDemotion", params={"PROB": 2}, reach=["evicted-again"], solver="cvc5", bounds="admission probability symbolic in [0,1]"),
               H("ZZ_C14_SetVsGet", params={"PRE": 1}, reach=["both-returned"], bounds="hybrid Get that missed in memory racing a Set of the same key, preemptions 1"),
-              H("ZZ_C14_UpdateVsEvict", params={"PRE": 1}, reach=["both-returned"], bounds="overwrite of a promoted entry racing its eviction, preemptions 1")],
+              H("ZZ_C14_UpdateVsEvict", params={"PRE": 1}, reach=["both-returned"], bounds="overwrite of a promoted entry racing its eviction, preemptions 1"),
+              H("ZZ_C15_ReloadAfterSecondaryExpiry", reach=["reloaded"], bounds="hybrid loading Get of a key whose only copy, in the secondary tier, has expired (advance 2^29..2^31 ns symbolic)"),
+              H("ZZ_C14_LoadingVariants", params={"MODE": 0, "PRE": 1}, reach=["done"], bounds="hybrid loading Get racing a Set of the same key, preemptions 1"),
+              H("ZZ_C14_LoadingVariants", params={"MODE": 1}, reach=["done"], bounds="hybrid loading Get after the newer value expired, read time symbolic")],
     "thorough": [H("ZZ_C14_StaleAfterExpiry", reach=["read"]), H("ZZ_C14_StaleAfterLostDemotion", params={"FULL": 1}, reach=["evicted-again"]),
                  H("ZZ_C14_StaleAfterLostDemotion", params={"PROB": 2}, reach=["evicted-again"], solver="cvc5"),
-                 H("ZZ_C14_SetVsGet", params={"PRE": 2}, reach=["both-returned"]), H("ZZ_C14_UpdateVsEvict", params={"PRE": 2}, reach=["both-returned"]),
+                 H("ZZ_C14_SetVsGet", params={"PRE": 2}, reach=["both-returned"]), H("ZZ_C14_LoadingVariants", params={"MODE": 0, "PRE": 2}, reach=["done"]), H("ZZ_C14_LoadingVariants", params={"MODE": 1}, reach=["done"]), H("ZZ_C14_UpdateVsEvict", params={"PRE": 2}, reach=["both-returned"]),
                  H("ZZ_C14_DeleteVsGet", params={"PRE": 2}, reach=["settled"]), H("ZZ_C14_HybridLoadingExpiry", reach=["read"]), H("ZZ_C14_Seq", params={"N": 5, "FULL": 1}, reach=["sequence-done", "hit"]), H("ZZ_C14_Seq", params={"N": 4, "PROB": 2}, reach=["sequence-done", "hit"], solver="cvc5"),
                  H("ZZ_C14_Seq", params={"N": 4, "PROB": 0}, reach=["sequence-done", "hit"]), H("ZZ_C14_Seq", params={"N": 4, "WORKERS": 2}, reach=["sequence-done", "hit"]),
                  H("ZZ_C14_Seq", params={"N": 5}, reach=["sequence-done", "hit", "promoted-from-secondary"], bounds="N=5 calls"),
